@@ -219,4 +219,11 @@ Section C15gen.
     destruct (callbacks_once_in_order i cbs s) as (lt & lv & E & Ft & Fv & _). exists lt, lv. auto.
   Qed.
 
+  (* _update_history as generated: the model's push_hist appends exactly what the loss branch appends; a custom-metric
+     series grows by exactly the value handed over (whatever it is: no value is filtered) *)
+  Theorem gen_update_history_is_model ph (v : V) (s : state) (known : bool) :
+    gen_update_history true known (hist ph s) v = Some (hist ph (push_hist ph v s)) /\
+    forall (h : list V), gen_update_history false true h v = Some (h ++ [v]).
+  Proof. split; [destruct ph; reflexivity|reflexivity]. Qed.
+
 End C15gen.
